@@ -42,7 +42,19 @@ func main() {
 	mapperm := flag.Bool("mapperm", false, "explore all map iteration orders")
 	deadline := flag.Int("deadline", 0, "seconds per entry before truncation (0 = none)")
 	cpuprof := flag.String("cpuprofile", "", "write a CPU profile")
+	emit := flag.String("emit-stubs", "", "write the group's patched dependency sources to this directory, print the overlay mapping as JSON and exit")
 	flag.Parse()
+	if *emit != "" {
+		env := append(os.Environ(), "GOFLAGS=-mod=mod", "GOPROXY=off", "GOSUMDB=off", "GOTOOLCHAIN=local")
+		m, err := emitStubs(*repo, *verif, *group, *emit, env)
+		if err != nil {
+			fmt.Fprintln(os.Stderr, "emit-stubs:", err)
+			os.Exit(3)
+		}
+		b, _ := json.Marshal(m)
+		os.Stdout.Write(b)
+		return
+	}
 	if *cpuprof != "" {
 		f, _ := os.Create(*cpuprof)
 		pprof.StartCPUProfile(f)
